@@ -21,6 +21,12 @@ func registerTimeNatives(in *Interp) {
 	n := in.natives
 	tb := in.tb
 	n["time.Now"] = func(in *Interp, fn *ssa.Function, args []Value) Value {
+		if in.frozenClock != nil {
+			// vClockFrozen: every reading is one fixed instant (harnesses whose code
+			// renders the clock into text that is parsed again)
+			in.noteAssumption("clock frozen at a fixed instant for this harness (vClockFrozen)")
+			return in.timeVal(tb.Int(in.frozenClock.SVal() * 1000000000))
+		}
 		t := in.fresh("now", BV(64))
 		lo := tb.Int(1 << 50)
 		if in.lastNow != nil {
@@ -135,6 +141,10 @@ func registerTimeNatives(in *Interp) {
 	n["os.LookupEnv"] = func(in *Interp, fn *ssa.Function, args []Value) Value {
 		in.noteAssumption("process environment is empty (os.Getenv returns \"\")")
 		return TupleV{in.strConst(""), tb.False}
+	}
+	in.intrinsicsExtra["vClockFrozen"] = func(in *Interp, args []Value) Value {
+		in.frozenClock = args[0].(*Term)
+		return nil
 	}
 	in.intrinsicsExtra["vClockWindow"] = func(in *Interp, args []Value) Value {
 		in.clockWindow = args[0].(*Term)
